@@ -384,36 +384,53 @@ def field_of_self(t):
     return None
 
 
+def self_value(t):
+    """field name if t is `self.f` or the payload `(self.f as Some).0`, else None"""
+    if t[0] == "field" and t[1] == ("param", 0):
+        return t[2]
+    if t[0] == "field" and t[2] == "0" and t[1][0] == "variant" and t[1][2] == "Some" and t[1][1][0] == "field" \
+            and t[1][1][1] == ("param", 0):
+        return t[1][1][2]
+    return None
+
+
 def emit_kind(prog, fn, pv, e):
     """descriptor of an emitted array element / map value: (kind, field)"""
     t = e["term"]
     f = field_of_self(t)
-    selff = lambda name: (("field", ("param", 0), name),)
     if t[0] == "tryok" and is_call(t[1]):
         c = t[1]
-        if c[1] == CBOR_BSTR and f and c[2] == selff(f):
-            return "protected", f
-        if c[1] == "<header::Header as common::AsCborValue>::to_cbor_value" and f and c[2] == selff(f):
-            return "header", f
-        if c[1] == TO_ARRAY and f and c[2] == selff(f):
+        sv = self_value(c[2][0]) if len(c[2]) == 1 else None
+        if c[1] == CBOR_BSTR and sv:
+            return "protected", sv
+        if c[1] == "<header::Header as common::AsCborValue>::to_cbor_value" and sv:
+            return "header", sv
+        if c[1] == TO_ARRAY and sv:
             site = fn.blocks[c[3][1]]["term"]["callee"]
             coll = site["args"][0]
             inner = coll[coll.index("<") + 1: coll.rindex(">")] if "<" in coll else coll
-            return "array<%s>" % inner, f
-        if c[1].endswith("::to_cbor_value") and f and c[2] == selff(f):
+            return "array<%s>" % inner, sv
+        if c[1].endswith("::to_cbor_value") and sv:
             full = _full_self(fn, c)
-            return "nested<%s>" % type_of_decoder(full.replace("::to_cbor_value", "::from_cbor_value")), f
+            return "nested<%s>" % type_of_decoder(full.replace("::to_cbor_value", "::from_cbor_value")), sv
+        if c[1].endswith("::to_cbor_value") and len(c[2]) == 1 and is_call(c[2][0], VEC_REMOVE):
+            r = c[2][0]
+            a0 = r[2][0]
+            inner = a0[1] if a0[0] == "ref" else a0
+            fld = self_value(inner)
+            if fld and r[2][1] == ("const", 0):
+                full = _full_self(fn, c)
+                return "first-of<%s>" % type_of_decoder(full.replace("::to_cbor_value", "::from_cbor_value")), fld
     if t[0] == "aggr" and t[1] == "ciborium::Value":
         inner = t[3][0][1] if t[3] else None
-        if t[2] == "Bytes" and f and inner == ("field", ("param", 0), f):
-            return "bstr", f
-        if t[2] == "Bytes" and f and inner == ("field", ("variant", ("field", ("param", 0), f), "Some"), "0"):
-            return "bstr", f   # payload of an Option field (the push is guarded by `some:<field>`)
-        if t[2] == "Text" and f and inner == ("field", ("param", 0), f):
-            return "tstr", f
-    if is_call(t, "core::convert::From::from") and f and t[2] == selff(f):
+        sv = self_value(inner) if inner else None
+        if t[2] == "Bytes" and sv:
+            return "bstr", sv
+        if t[2] == "Text" and sv:
+            return "tstr", sv
+    if is_call(t, "core::convert::From::from") and len(t[2]) == 1 and self_value(t[2][0]):
         site = fn.blocks[t[3][1]]["term"]["callee"]
-        return "int<%s>" % site["args"][1], f
+        return "int<%s>" % site["args"][1], self_value(t[2][0])
     # match on an Option field: Some(b) => Bytes(b), None => Null
     alist = arms(pv, e["op"], e["at"][0], e["at"][1])
     if len(alist) >= 2:
